@@ -7,9 +7,9 @@ CONSTANTS
   Variants = {"asis", "fixed"}
   Cuts = FALSE
   Kinds = {"T2", "T1S", "T1D", "T512"}
-  Sizes = {3, 4, 5}
+  Sizes = {1, 2, 3, 4, 5}
   Pads = {0, 1, 2, 3, 4, 5, 6, 7}
-  Props = {0, 77, 84}
+  Props = {0, 77, 84, 113}
   CtlFroms = {2, 4, 9, 14}
   MemSizes = {1, 3, 0}
   LockBits = {1, 7, 9, 12, 15, 0}
